@@ -360,10 +360,7 @@ theorem noBad_round (p : Prog) (t : Tbl) (rd : Exec.Round) (hg : GoodRound rd) (
     have hb := noBad_mv hm hgi ⟨hv, hv⟩
     have himm := hm.imm_eq
     unfold finalTbl
-    split
-    · exact noBad_applyPrefix _ (by rw [himm]; exact hgi) _ _ _ hb.2
-    · exact noBad_applyPrefix _ (by rw [himm]; exact hgi) _ _ _ hb.2
-    · exact hb.1
+    exact noBad_applyPrefix _ (by rw [himm]; exact hgi) _ _ _ hb.2
 
 theorem noBad_rounds (p : Prog) : ∀ (rounds : List Exec.Round) (t : Tbl), (∀ rd ∈ rounds, GoodRound rd) →
     NoBadT t → ∀ o ∈ Exec.runRounds p t rounds, NoBadT o.tbl := by
